@@ -21,6 +21,8 @@ macro_rules! lock_proof {
         #[kani::stub(alloc::fmt::format, stubs::fmt_format)]
         #[kani::stub(core::fmt::write, stubs::fmt_write)]
         #[kani::stub(<core::io::CustomOwner as core::ops::Drop>::drop, stubs::custom_owner_drop)]
+        #[kani::stub(<std::io::Error as core::fmt::Display>::fmt, stubs::io_error_display)]
+        #[kani::stub(<std::io::Error as core::fmt::Debug>::fmt, stubs::io_error_display)]
         #[kani::stub(<std::os::fd::OwnedFd as core::ops::Drop>::drop, stubs::owned_fd_drop)]
         #[kani::stub(std::fs::OpenOptions::open, stubs::open_lock_file)]
         #[kani::stub(<std::fs::File as fs2::FileExt>::try_lock_exclusive, stubs::try_lock_exclusive)]
